@@ -704,21 +704,36 @@ pub async fn run_bytes_cfg(addr: String, certs: Certs, cfg: Cfg, seed: u64) -> O
 /// Several library subscribers open on a topic nobody has used yet at the same moment (separate clients, released by
 /// a barrier); a publisher then sends a few items and finishes. Every subscriber whose open() succeeded "registered
 /// before the first send" and must yield exactly the items.
+/// where the concurrent-open scenario currently is (reported by its watchdog)
+static CO_PHASE: std::sync::Mutex<String> = std::sync::Mutex::new(String::new());
+fn co_phase(s: String) {
+    *CO_PHASE.lock().unwrap() = s;
+}
+
 async fn run_concurrent_open(addr: String, certs: Certs, rounds: usize, id: u64) -> Outcome {
     let n = 8usize;
-    let mut clients = vec![];
-    for _ in 0..n {
-        match lib_client(&addr, &certs, None).await {
-            Ok(c) => clients.push(c),
-            Err(e) => return Outcome::Inconclusive(format!("connect: {e}")),
-        }
-    }
-    let pub_client = match lib_client(&addr, &certs, None).await {
-        Ok(c) => c,
-        Err(e) => return Outcome::Inconclusive(format!("connect: {e}")),
-    };
+    // A connection is used for a dozen rounds only. The server learns that a subscriber has gone when it next writes
+    // to it; every round uses a fresh topic that falls silent once its publisher has finished, so the server never
+    // releases these streams, and after 100 of them on one connection QUIC's stream credit is used up and open() waits
+    // for ever (seen as a watchdog at round 100 of the thorough tier; no statement covers that, see DESIGN.md §12).
+    let mut clients: Vec<selium::Client> = vec![];
+    let mut pub_client: Option<selium::Client> = None;
     let mut delivered = 0usize;
     for round in 0..rounds {
+        if round % 12 == 0 {
+            clients.clear();
+            for _ in 0..n {
+                match lib_client(&addr, &certs, None).await {
+                    Ok(c) => clients.push(c),
+                    Err(e) => return Outcome::Inconclusive(format!("connect: {e}")),
+                }
+            }
+            pub_client = match lib_client(&addr, &certs, None).await {
+                Ok(c) => Some(c),
+                Err(e) => return Outcome::Inconclusive(format!("connect: {e}")),
+            };
+        }
+        let pub_client = pub_client.as_ref().unwrap();
         let topic = unique_topic("c03r", id * 10_000 + round as u64);
         let barrier = Arc::new(tokio::sync::Barrier::new(n));
         let mut tasks = vec![];
@@ -731,13 +746,15 @@ async fn run_concurrent_open(addr: String, certs: Certs, rounds: usize, id: u64)
             }));
         }
         let mut subs = vec![];
-        for t in tasks {
+        for (k, t) in tasks.into_iter().enumerate() {
+            co_phase(format!("round {}: waiting for open() of subscriber {} of {}", round, k, n));
             match t.await {
                 Ok(Ok(s)) => subs.push(s),
                 Ok(Err(e)) => return Outcome::Violated { sig: "open-error/concurrent-open".into(), detail: format!("round {}: open() of a subscriber on a fresh topic failed on a healthy connection: {}", round, e) },
                 Err(e) => return Outcome::Inconclusive(format!("harness task: {e}")),
             }
         }
+        co_phase(format!("round {}: opening the publisher", round));
         let mut publisher = match pub_client.publisher(&topic).with_encoder(StringCodec).open().await {
             Ok(p) => p,
             Err(e) => return Outcome::Inconclusive(format!("open publisher: {e}")),
@@ -745,14 +762,17 @@ async fn run_concurrent_open(addr: String, certs: Certs, rounds: usize, id: u64)
         tokio::time::sleep(Duration::from_millis(40)).await;
         let sent: Vec<String> = (0..5).map(|i| format!("r{}-item{}", round, i)).collect();
         for it in &sent {
+            co_phase(format!("round {}: publisher.send({})", round, it));
             if let Err(e) = publisher.send(it.clone()).await {
                 return Outcome::Violated { sig: "send-error".into(), detail: e.to_string() };
             }
         }
+        co_phase(format!("round {}: publisher.finish()", round));
         if let Err(e) = publisher.finish().await {
             return Outcome::Violated { sig: "finish-error".into(), detail: e.to_string() };
         }
         for (k, mut s) in subs.into_iter().enumerate() {
+            co_phase(format!("round {}: reading subscriber {}", round, k));
             let mut got: Vec<String> = vec![];
             let deadline = tokio::time::Instant::now() + Duration::from_secs(4);
             while got.len() < sent.len() {
@@ -1022,9 +1042,10 @@ pub fn run(rep: &mut StageReport, tier: &str, seed: u64) {
         {
             let rounds = if tier == "thorough" { 200 } else { 25 };
             let cfg = Cfg { codec: "string", compression: None, batch: None, count: 5 * rounds, payload: 10, sizes: None, compressible: false, precompressed: false, id: 92_000 };
-            let r = match tokio::time::timeout(Duration::from_secs(400), run_concurrent_open(addr.clone(), certs.clone(), rounds, 1)).await {
+            let wd = std::env::var("VERIF_C03_CO_WATCHDOG").ok().and_then(|v| v.parse().ok()).unwrap_or(400u64);
+            let r = match tokio::time::timeout(Duration::from_secs(wd), run_concurrent_open(addr.clone(), certs.clone(), rounds, 1)).await {
                 Ok(o) => o,
-                Err(_) => Outcome::Inconclusive("watchdog: concurrent-open scenario did not finish within 400 s".into()),
+                Err(_) => Outcome::Inconclusive(format!("watchdog: concurrent-open scenario did not finish within {} s (it was at: {})", wd, CO_PHASE.lock().unwrap())),
             };
             out.push((cfg, r));
         }
